@@ -7,6 +7,14 @@ claim('C02', 'finite decision-table analysis (path-sensitive value numbering ove
       'decide float rounding or NumPy itself.',
       'Assumes numpy.searchsorted documented side semantics and Python slice semantics.', 'DESIGN.md §3 C02')
 
+claim('C01', 'program-model resolution of the accessor registry + path-sensitive value numbering with guard/provenance rules (absent-label guards, dispatch table, searchsorted preconditions, per-dimension bookkeeping)',
+      'Decides structural clauses of C01: every accessor spelling reaches the single _getitem/_setitem pair with the indexing mode its name '
+      'promises; an absent label can only leave locate_one / Axis.loc through IndexError (guard polarity and comparator checked on every path, '
+      'tolerance test is dist > tol); the loc dispatch table sends each index kind to the routine the statement describes; searchsorted is only '
+      'used on sorted input or through sorter=argsort mapped back; orthogonal indexing is the default pair; the i-th index is resolved on the '
+      'i-th axis and scalar-indexed axes are dropped. Not the numerical result of argsort/searchsorted/np.ix_.',
+      'Assumes numpy.where/argmin/argsort/searchsorted/take documented semantics.', 'DESIGN.md §3 C01')
+
 UNDER_CONSTRUCTION = 'checker under construction in this session (claimed in DESIGN.md, not yet registered)'
 for pid in ['C01', 'C03', 'C04', 'C05', 'C06', 'C07', 'C08', 'C09', 'C10', 'C11', 'C12', 'C13', 'C14', 'C15', 'C16',
             'C17', 'C18', 'C19']:
